@@ -10,7 +10,7 @@ VARIABLE l
 TraceLog == ndJsonDeserialize(IOEnv.TRACE)
 
 ResetTo(ev) ==
-  /\ data' = ev.arg.data /\ lo' = ev.arg.lo /\ hi' = ev.arg.hi /\ ranged' = (ev.arg.ranged = 1)
+  /\ data' = ev.arg.data /\ data2' = (IF "data2" \in DOMAIN ev.arg THEN ev.arg.data2 ELSE <<>>) /\ lo' = ev.arg.lo /\ hi' = ev.arg.hi /\ ranged' = (ev.arg.ranged = 1)
   /\ pos' = 0 /\ parts' = <<>>
   /\ ev.arg.lim = Limit
   /\ obs' = [a |-> "init", arg |-> [x |-> 0], exp |-> [x |-> 0]]
@@ -30,7 +30,7 @@ Step(ev) ==
          /\ PartOK(parts'[Len(parts')])
     [] ev.a = "join" /\ Len(parts) < 2 ->      \* nothing to join: the driver made no call
          /\ ev.obs.ret = "none"
-         /\ UNCHANGED <<data, lo, hi, ranged, pos, parts>>
+         /\ UNCHANGED <<data, data2, lo, hi, ranged, pos, parts>>
          /\ obs' = [a |-> "join", arg |-> [x |-> 0], exp |-> [ret |-> "none"]]
     [] ev.a = "join" /\ Len(parts) >= 2 ->
          /\ Len(parts) >= 2
@@ -53,6 +53,19 @@ Step(ev) ==
          /\ Apply(ev.arg.mode, ps)
          /\ pos' = Len(data)
          /\ \A i \in 1..Len(ps) : PartOK(ps[i])
+    [] ev.a = "apply2" ->
+         LET ps == Build(ev.obs.parts, 1, 0)
+             qs == Build(ev.obs.pparts, 1, 0)      \* the polyline's own parts
+         IN
+         /\ Len(data2) = Len(data)
+         /\ StartsInside(ps) /\ StartsInside(qs)
+         /\ Apply2(ev.arg.mode, ps, qs, ev.obs.np)
+         /\ pos' = Len(data) /\ SumRaw(qs) = Len(data)
+         /\ \A i \in 1..Len(ps) : PartOK2(ps[i])
+         /\ \A i \in 1..Len(qs) : PartOK2(qs[i])
+         /\ Len(ev.obs.np) <= Len(qs)
+         /\ \A i \in 1..Len(qs) : qs[i].usr > 0 => i <= Len(ev.obs.np)
+         /\ \A i \in 1..Len(ev.obs.np) : ev.obs.np[i] = NDrawn(qs[i])
     [] ev.a = "poly" ->
          LET ps == Build(ev.obs.parts, 1, 0) IN
          /\ StartsInside(ps)
@@ -68,7 +81,7 @@ Step(ev) ==
     [] OTHER -> FALSE
 
 TraceInit ==
-  /\ l = 1 /\ data = <<>> /\ lo = 0 /\ hi = 0 /\ ranged = TRUE /\ pos = 0 /\ parts = <<>>
+  /\ l = 1 /\ data = <<>> /\ data2 = <<>> /\ lo = 0 /\ hi = 0 /\ ranged = TRUE /\ pos = 0 /\ parts = <<>>
   /\ obs = [a |-> "none", arg |-> [x |-> 0], exp |-> [x |-> 0]]
 
 TraceNext ==
